@@ -238,6 +238,23 @@ class RepoInterp:
             if seq is not None and all(isinstance(x, K) and isinstance(x.v, str) for x in seq):
                 return K(fval.v.join(x.v for x in seq))
             return None
+        if fname in ("min", "max") and len(args) == 1 and any(k.arg == "key" for k in call.keywords):
+            seq = it.iterate(args[0], st)
+            lam = [k.value for k in call.keywords if k.arg == "key"][0]
+            if seq is None or not seq or not (isinstance(lam, ast.Lambda) and len(lam.args.args) == 1):
+                return None
+            keyed = []
+            for x in seq:
+                sub = st.fork()
+                sub.heap, sub._next, sub.effects = st.heap, st._next, st.effects
+                sub.env[lam.args.args[0].arg] = x
+                kk = self._sort_key(it.eval(lam.body, sub))
+                if kk is None or (kk[0] == 1 and any(p[0] == 9 for p in kk[1])):
+                    return None
+                keyed.append((kk, x))
+            pick = min if fname == "min" else max
+            best = pick(range(len(keyed)), key=lambda i: keyed[i][0])
+            return keyed[best][1]
         if fname == "sorted" and len(args) == 1:
             seq = it.iterate(args[0], st)
             if seq is None:
@@ -258,8 +275,8 @@ class RepoInterp:
                 if kk is None:
                     return None
                 keys.append(kk)
-            plain = [tuple(p for p in k[1] if p[0] != "<unsortable>") if k[0] == 1 else k for k in keys]
-            if any(k[0] == 1 and any(p[0] == "<unsortable>" for p in k[1]) for k in keys) and len(set(map(repr, plain))) != len(plain):
+            plain = [tuple(p for p in k[1] if p[0] != 9) if k[0] == 1 else k for k in keys]
+            if any(k[0] == 1 and any(p[0] == 9 for p in k[1]) for k in keys) and len(set(map(repr, plain))) != len(plain):
                 return None  # a tie would be decided by comparing unsortable objects (TypeError at runtime)
             order = sorted(range(len(seq)), key=lambda i: repr(plain[i]) if False else plain[i])
             if any(k.arg == "reverse" for k in call.keywords):
@@ -313,10 +330,10 @@ class RepoInterp:
                 p = self._sort_key(x)
                 if p is None:
                     # tuples compare element-wise: a later element matters only on ties of the earlier ones
-                    parts.append(("<unsortable>", id(x)))
+                    parts.append((9, "<unsortable>"))
                     break
                 parts.append(p)
-            return (1, tuple(parts)) if parts and parts[0][0] != "<unsortable>" else None
+            return (1, tuple(parts)) if parts and parts[0][0] != 9 else None
         return None
 
     def resolve(self, call: ast.Call, fval: Optional[V] = None) -> Optional[FunctionInfo]:
